@@ -30,13 +30,12 @@ theorem stripBOM_encode (d : Doc) : stripBOM (encode d) = (d.hasBOM, encForest 0
       simp [encForest, encNode, renderLine, this, BOM, List.isPrefixOf]
   · simp [BOM, List.isPrefixOf]
 
-/-- **Round trip.** For every legal document, with or without BOM, and every setting of
-    `AllowInvalidIndents`, decoding the encoder's text yields exactly the same document:
-    same tag, value, pointer, child order and nesting at every position, same BOM flag
-    (the node kind is a function of the tag, `Generated.kindOfTag`).  In particular the
-    encoder's text is always accepted (`.ok`, never `.error` or `.panic`). -/
-theorem decode_encode (d : Doc) (h : Legal d) (o : Opts) (hm : o.allowMultiLine = false) :
-    decode o (encode d) = .ok d := by
+/-- **Round trip.** For every legal document, with or without BOM, and *every* combination
+    of `AllowMultiLine` and `AllowInvalidIndents`, decoding the encoder's text yields exactly
+    the same document: same tag, value, pointer, child order and nesting at every position,
+    same BOM flag (the node kind is a function of the tag, `Generated.kindOfTag`).  In
+    particular the encoder's text is always accepted (`.ok`, never `.error` or `.panic`). -/
+theorem decode_encode (d : Doc) (h : Legal d) (o : Opts) : decode o (encode d) = .ok d := by
   unfold decode
   rw [stripBOM_encode]
   simp only
@@ -46,18 +45,24 @@ theorem decode_encode (d : Doc) (h : Legal d) (o : Opts) (hm : o.allowMultiLine 
   simp only [List.append_nil] at hrun
   have : splitLines (encForest 0 d.nodes) = splitLines.go (encForest 0 d.nodes) [] := rfl
   rw [this, hrun]
-  have hlast : run o s' n' (splitLines.go [] []) = .inr s' := by
-    simp [splitLines.go, run, step, hm]
-  rw [hlast]
-  simp only [trimTop_of_TopOK s' htop, hclose]
-  have : closeTo 0 (⟨[], [], false⟩ : St) = ⟨[], [], false⟩ := by simp [closeTo, closeN]
-  rw [this]
-  simp [attach, setFam]
+  have h0 : closeTo 0 (⟨[], [], false⟩ : St) = ⟨[], [], false⟩ := by simp [closeTo, closeN]
+  -- the text ends with a line feed, so the last line is blank
+  by_cases hm : (o.allowMultiLine && !s'.stack.isEmpty) = true
+  · have hlast : run o s' n' (splitLines.go [] []) = .inr (appendTop [LF] s') := by
+      simp [splitLines.go, run, step, hm]
+    rw [hlast]
+    simp only [trimTop_appendTop_LF s' htop, hclose, h0]
+    simp [attach, setFam]
+  · have hlast : run o s' n' (splitLines.go [] []) = .inr s' := by
+      simp [splitLines.go, run, step, hm]
+    rw [hlast]
+    simp only [trimTop_of_TopOK s' htop, hclose, h0]
+    simp [attach, setFam]
 
 /-- the encoder's text is never rejected -/
-theorem encode_accepted (d : Doc) (h : Legal d) (o : Opts) (hm : o.allowMultiLine = false) :
+theorem encode_accepted (d : Doc) (h : Legal d) (o : Opts) :
     (∀ n, decode o (encode d) ≠ .error n) ∧ (∀ c, decode o (encode d) ≠ .panic c) := by
-  rw [decode_encode d h o hm]
+  rw [decode_encode d h o]
   exact ⟨fun _ => by simp, fun _ => by simp⟩
 
 /-- every decimal level the encoder writes reads back (any depth, not only 0–9) -/
@@ -88,7 +93,7 @@ example : Legal sample := by
   apply legal_of_check
   simp [sample, legalDocB, legalFB, legalTB, legalHdrB, rolesOKF, rolesOKT, famAfterT, famAfterF,
     isRoleTag, isRecordTag, isWord, tFAM, tHUSB, tWIFE, tCHIL, tINDI, AT, LF, CR,
-    trimSpace, trimLeft, trimLeftRev, spacePrefixLen, spaceSuffixLenRev, spaceSeqs, spaceSeqsRev,
+    trimSpace, trimLeft, trimLeftRev, trimL, prefLen, spaceSeqs, spaceSeqsRev,
     List.isPrefixOf, List.find?]
 
 end Gedcom.C01
